@@ -1260,6 +1260,8 @@ DEFAULT_SUMMARIES = {
     "std::option::Option::copied": s_option_copied,
     "std::option::Option::cloned": s_option_copied,
     "std::option::Option::unwrap": s_option_unwrap,
+    "std::time::Duration::div_f32": s_div_f32,
+    "std::time::Duration::div_f64": s_div_f32,
     "std::ops::Try::branch": s_try_branch,
     "std::ops::FromResidual::from_residual": s_from_residual,
     "std::ops::Add::add": s_add,
